@@ -242,7 +242,8 @@ def rule_r4(rep, program: Program):
     # the helper really calls the configured solver after the flow with (state, state_prev, t, system)
     f = k.methods.get("_h2_flow_retraction_onto_manifold")
     if f is not None:
-        calls = [c for c in ast.walk(f.node) if isinstance(c, ast.Call) and norm(c.func) == "self.projection_solver"]
+        aliases = {"self.projection_solver"} | {a.targets[0].id for a in ast.walk(f.node) if isinstance(a, ast.Assign) and len(a.targets) == 1 and isinstance(a.targets[0], ast.Name) and norm(a.value) == "self.projection_solver"}
+        calls = [c for c in ast.walk(f.node) if isinstance(c, ast.Call) and norm(c.func) in aliases]
         ok = calls and [norm(a) for a in calls[0].args] == [f.params[1], f.params[2], f.params[3], "self.system"]
         r.inst({"projection_solver args": [norm(a) for a in calls[0].args] if calls else None})
         if not ok:
